@@ -57,7 +57,23 @@ pub fn check_identity(source: &str) -> Result<Option<bool>, String> {
     let out = match dl::process_one(source, EMPTY_RULES) {
         Ok(o) => o,
         Err(dl::DlError::Panic(p)) => return Err(format!("PANIC {}", p)),
-        Err(dl::DlError::Process(_)) => return Ok(None),
+        Err(dl::DlError::Process(errs)) => {
+            if let Ok(f) = std::env::var("VERIF_LOG_REJECTS") {
+                use std::io::Write;
+                if let Ok(mut fh) = std::fs::OpenOptions::new().create(true).append(true).open(f) {
+                    let _ = writeln!(fh, "{:?}\n{}\n=====", errs, source);
+                }
+            }
+            // the parser dependency reads `{ ["lit" | T]: V }` / `["lit"?]` as a string-key property and
+            // rejects it: the only family of valid inputs darklua is known to refuse (counted as a
+            // discard). Any other refusal of a text the independent parser accepts means that the
+            // file cannot be processed at all: nothing is written, so nothing is reproduced.
+            let known_limit = errs.iter().any(|e| e.contains("for type table field"));
+            if !known_limit && crate::luasyn::parse(source, Mode::Luau).is_ok() {
+                return Err(format!("darklua refuses a valid program (accepted by the independent parser): {}", errs.join(" | ")));
+            }
+            return Ok(None);
+        }
         Err(e) => return Err(format!("{}", e)),
     };
     if out == source {
